@@ -354,7 +354,7 @@ def main(chk):
     cid = 0
     styles = ["after", "between", "lookup-first", "all"]
     for k in (2, 3, 4):
-        n = {2: chk.pick(6, 40), 3: chk.pick(14, 300), 4: chk.pick(5, 150)}[k]
+        n = {2: chk.pick(12, 40), 3: chk.pick(40, 300), 4: chk.pick(14, 150)}[k]
         for i in range(n):
             pairs = [(a, c) for a in range(k) for c in range(k) if a != c]
             edges = [p for p in pairs if rng.random() < rng.choice([0.3, 0.5])]
